@@ -223,6 +223,10 @@ def run(ctx):
     rule_writers_closed(ctx, facts)
     from .c07 import rule_no_self_termination
     rule_no_self_termination(ctx, facts, "C02-R8")
+    # a panic in the insertion pass ends the run between the renames and the lock write: the panic-site
+    # audit of C17-R1 is a premise here as well (only failures are reported under this name)
+    from . import c17
+    c17.rule_panic_audit(_FailOnly(ctx, "C02-R9"), facts, "C17-R1")
     # start value comes from the lock when present (C01-R3) — re-checked here because the
     # induction needs it
     from . import c01
@@ -236,3 +240,30 @@ def run(ctx):
                        "rename replacement, visibility of write failures, closed set of lock writers.",
         "trusted": ["rustc MIR", "serde_yaml parses what it serialises"],
     }
+
+
+class _FailOnly:
+    """ctx proxy: forwards failures (renamed), counts successes as one obligation"""
+
+    def __init__(self, ctx, rule):
+        self.c, self.rule, self.n = ctx, rule, 0
+        self.bin, self.grammar, self.extra = ctx.bin, ctx.grammar, ctx.extra
+
+    def ok(self, *a, **k):
+        self.n += 1
+
+    def bad(self, rule, key, msg, where="", detail=None):
+        self.c.bad(self.rule, key, msg, where, detail)
+
+    def check(self, cond, rule, key, what, where="", detail=None):
+        if cond:
+            self.n += 1
+        else:
+            self.c.bad(self.rule, key, what, where, detail)
+        return cond
+
+    def assume(self, t):
+        pass
+
+    def note(self, t):
+        self.c.ok(self.rule, "panic-site audit (C17-R1) re-run as a premise: %s" % t, "")
